@@ -384,7 +384,9 @@ pub fn check(scn: &Scenario, c: &mut Counters) -> Verdict {
     let outcomes = match &out.ends[0] {
         TaskEnd::Finished(TaskResult::Outcomes(o)) => o.clone(),
         TaskEnd::Finished(other) => {
-            return Verdict::violation("call-failed", format!("evaluate_value returned {other:?}"));
+            // the call as a whole failing is C09's business; the order model cannot align
+            c.bump("skipped.call_failed");
+            return Verdict::skip(format!("evaluate_value returned {other:?} (C09)"));
         }
         TaskEnd::ForeignPanic(m) => {
             // a panic inside evaluation is C01's business, not an ordering fact; not judged here
@@ -397,6 +399,10 @@ pub fn check(scn: &Scenario, c: &mut Counters) -> Verdict {
         // C09's business; the order model needs one outcome per rule to align
         c.bump("skipped.outcome_count");
         return Verdict::skip("outcome count differs from rule count (C09)".into());
+    }
+    if outcomes.iter().zip(scn.rules.iter()).any(|(o, r)| o.rule_name != r.name) {
+        c.bump("skipped.outcome_order");
+        return Verdict::skip("outcomes are not in rule order (C09)".into());
     }
     // the model
     let facts = match &scn.inputs[0] {
